@@ -122,6 +122,13 @@ package yubiagent
 //@       arg(ShimAgent.Forward, k, 0) == agent && arg(ShimAgent.Forward, k, 1) == ret(yubiagent.read, i, 0)))
 //@   ensures [forwarded-reply-is-written-back-whole] forall(k, old(calls(ShimAgent.Forward)) <= k && k < calls(ShimAgent.Forward), ret(ShimAgent.Forward, k, 1) == nil ==>
 //@     exists(w, old(calls(yubiagent.write)) <= w && w < calls(yubiagent.write), arg(yubiagent.write, w, 0) == c && arg(yubiagent.write, w, 1) == ret(ShimAgent.Forward, k, 0)))
+//@   # current wire format of add-hardware-certificate: the request tail is the key blob; the key handed on has that blob and no comment
+//@   ensures [hardware-certificate-is-the-key-in-the-request] forall(k, old(calls(ShimAgent.AddHardCert)) <= k && k < calls(ShimAgent.AddHardCert),
+//@     exists(i, old(calls(yubiagent.read)) <= i && i < calls(yubiagent.read), ret(yubiagent.read, i, 1) == nil && len(ret(yubiagent.read, i, 0)) >= 1 &&
+//@       reqCode(i) == 31 && arg(ShimAgent.AddHardCert, k, 0) == agent &&
+//@       (parseOK(retc(yubiagent.read, i, 0), off(ret(yubiagent.read, i, 0)) + 1, len(ret(yubiagent.read, i, 0)) - 1) ==>
+//@         (blobid(arg(ShimAgent.AddHardCert, k, 1)) == contentOf(retc(yubiagent.read, i, 0), off(ret(yubiagent.read, i, 0)) + 1, len(ret(yubiagent.read, i, 0)) - 1) &&
+//@          arg(ShimAgent.AddHardCert, k, 2) == ""))))
 //@   loop 1:
 //@     invariant reads() >= 0 && responses() == reads()
 //@     invariant (typeof(agent) == *server && typeof(agent.(*server).ShimAgent) == *shimagent.Server) ==> shimagent.condsOK(agent.(*server).ShimAgent.(*shimagent.Server))
@@ -148,7 +155,12 @@ package yubiagent
 //@         arg(ShimAgent.Forward, k, 0) == agent && arg(ShimAgent.Forward, k, 1) == ret(yubiagent.read, i, 0)))
 //@     invariant [forwarded-reply-is-written-back-whole] forall(k, old(calls(ShimAgent.Forward)) <= k && k < calls(ShimAgent.Forward), ret(ShimAgent.Forward, k, 1) == nil ==>
 //@       exists(w, old(calls(yubiagent.write)) <= w && w < calls(yubiagent.write), arg(yubiagent.write, w, 0) == c && arg(yubiagent.write, w, 1) == ret(ShimAgent.Forward, k, 0)))
-
+//@     invariant [hardware-certificate-is-the-key-in-the-request] calls(ShimAgent.AddHardCert) >= old(calls(ShimAgent.AddHardCert)) && forall(k, old(calls(ShimAgent.AddHardCert)) <= k && k < calls(ShimAgent.AddHardCert),
+//@       exists(i, old(calls(yubiagent.read)) <= i && i < calls(yubiagent.read), ret(yubiagent.read, i, 1) == nil && len(ret(yubiagent.read, i, 0)) >= 1 &&
+//@         reqCode(i) == 31 && arg(ShimAgent.AddHardCert, k, 0) == agent &&
+//@         (parseOK(retc(yubiagent.read, i, 0), off(ret(yubiagent.read, i, 0)) + 1, len(ret(yubiagent.read, i, 0)) - 1) ==>
+//@           (blobid(arg(ShimAgent.AddHardCert, k, 1)) == contentOf(retc(yubiagent.read, i, 0), off(ret(yubiagent.read, i, 0)) + 1, len(ret(yubiagent.read, i, 0)) - 1) &&
+//@            arg(ShimAgent.AddHardCert, k, 2) == ""))))
 
 //@ # ---------------------------------------------------------------- C13: the client side
 //@ # the connection is used by one operation at a time: request frame, then reply frame, under connLock
